@@ -124,4 +124,25 @@ CLAIMS = {
     design_ref="DESIGN.md §3 C12",
     note=_corr + "gradient theorem stated for the straight-line rule; the other rules compose the C01-proved exp/log rules.",
     technique="Lean 4 proof over state-machine model of set_ad_order + differential correspondence"),
+ "C09": dict(
+    text="Lean 4 theorems over the model of the triangulation: over any field, whenever it returns a result every one of "
+         "the n x n rates is populated and equals the ratio of the two currencies' potentials (C09_arbitrage_free), hence "
+         "diagonal 1, rate x inverse = 1, triangle/path law (C09_inverse_and_path) and independence of quote order and base "
+         "(C09_order_base_irrelevant); populated entries (quotes, diagonal) are never rewritten - returned exactly as quoted "
+         "for every element type (C09_exact_quotes, C09_seed_holds_quote); count and settlement rejections (C09_rejects, "
+         "C09_rejects_settlement). PARTIAL: success for every tree / failure for every non-tree with the right count is "
+         "covered by the correspondence run (random trees n=2..12, malformed stream) and a model-free oracle, not a theorem.",
+    design_ref="DESIGN.md §3 C09",
+    note=_corr + "completeness of the triangulation on trees not proved (partial); f64 rounding modelled.",
+    technique="Lean 4 proof (loop invariants by induction over the triangulation, field algebra) + differential correspondence + model-free oracle"),
+ "C10": dict(
+    text="Lean 4 theorems: naming of lifted quotes (C10_naming); refused updates change nothing (C10_refused_update_noop); "
+         "an accepted update is exactly the market rebuilt from the latest quotes (C10_update_is_rebuild); order switches "
+         "keep quotes and currencies (C10_order_keeps_quotes), lowering projects values (C10_lowering_projects), and the "
+         "first-order matrix has the zero-order matrix as values via a homomorphism theorem for the triangulation "
+         "(C10_order_keeps_values, over ℝ). PARTIAL: the +-rate/quote sensitivity statement follows from C09 + C01/C02 "
+         "compositionally and is checked by correspondence and a model-free oracle, not restated as one theorem.",
+    design_ref="DESIGN.md §3 C10",
+    note=_corr + "sensitivity formula not a single theorem (partial).",
+    technique="Lean 4 proof (state machine, homomorphism/parametricity of the triangulation) + differential correspondence + model-free oracle"),
 }
